@@ -103,6 +103,8 @@ class StubScanner:
 
     def read(self):
         self.reads += 1
+        if self.reads > len(self.tokens) + 2000:
+            raise probe.WorkBoundExceeded("the stub scanner was read %d times for %d tokens" % (self.reads, len(self.tokens)))
         if self.i < len(self.tokens):
             t = self.tokens[self.i]
             self.i += 1
@@ -125,7 +127,7 @@ def drive(state, token, following):
     new = None
     try:
         new = p.match_token(state, token, ctx)
-    except Exception as e:            # only RuntimeError('Unknown state') is legitimate here
+    except (Exception, probe.WorkBoundExceeded) as e:            # only RuntimeError('Unknown state') is legitimate here
         err = "raised %s: %s" % (type(e).__name__, e)
     msg = str(ctx.errors[0]) if ctx.errors else None
     # calls on the *current* token only (look-ahead calls go to following tokens)
@@ -356,6 +358,8 @@ def real_run(kinds, stop=False):
     except ParserException as e:
         status = "single"
         errors = [e]
+    except probe.WorkBoundExceeded as e:
+        status = "work-bound-exceeded: %s" % e
     evs = [e[:1] if e[0] == "build" else e for e in b.events]
     errs = []
     for e in errors:
